@@ -35,6 +35,8 @@ var V = []Val{
 	Set(), Set(Long(1)), Set(Long(1), Bool(true)), Set(Set(Long(1))), Set(Entity("U", "alice"), Entity("G", "g2")), Set(Entity("G", "g1"), Long(1)), Set(Str("a"), Str("ab")),
 	// records
 	Rec(), Rec(KV{"a", Long(1)}), Rec(KV{"a", Long(1)}, KV{"b", Str("x")}), Rec(KV{"a", Rec(KV{"b", Long(1)})}),
+	// records that look like the implicit JSON spellings of an entity and of an extension value
+	Rec(KV{"id", Str("alice")}, KV{"type", Str("U")}), Rec(KV{"arg", Str("127.0.0.1")}, KV{"fn", Str("ip")}),
 	// decimals
 	Decimal(MinI), Decimal(-1), Decimal(0), Decimal(1), Decimal(12345), Decimal(MaxI),
 	// ip
